@@ -147,8 +147,9 @@ func (l *Log) Tail(n int) string {
 // Dump renders the whole log as strings (replay input).
 func (l *Log) Dump(max int) []string {
 	evs := l.Snapshot()
-	if len(evs) > max {
-		evs = evs[:max]
+	if len(evs) > max && max > 60 {
+		// keep the beginning and the end
+		evs = append(append([]*Event(nil), evs[:40]...), evs[len(evs)-(max-40):]...)
 	}
 	out := make([]string, len(evs))
 	for i, e := range evs {
